@@ -10,7 +10,7 @@ import (
 
 func init() {
 	register(&propCheck{id: "C16", needRoot: true, run: checkC16,
-		explanation: "Decided statically (narrow; necessary conditions of reading a legacy database): (1) DOM — the dual-format node fetch dispatches consistently: the legacy decoder and the legacy key-space ('n' + hash) are used exactly on the `len(key) == 32` edge, the new decoder and key-space ('s' + version,nonce) on the other; a node's storage key is its hash iff it is marked legacy; (2) FORMAT — the legacy decoder marks the node legacy, takes its hash from the storage key and its version from the body (pinned legacy layout is decided under C13); (3) PASS — the root lookup falls back to the legacy root key-space before reporting that a version does not exist; (4) ORDER — pruning across the boundary deletes the legacy versions once and then marks the legacy range as gone. Added in the build round: TABLE-legacy-root — missing legacy root entry = version does not exist, empty entry = empty tree, else the root hash; TABLE-legacy-orphans — the legacy orphan callback walked for all 9 orderings of (from, L) × (to, L): node deleted iff (from <= L and to < L) or from > L; the cached first version leaves the legacy range after the legacy delete, and getFirstNonLegacyVersion stores what it found. NOT decided: that legacy contents, hashes, orphan records and the versions meant to remain are preserved over histories (depends on what the legacy database contains)."})
+		explanation: "Decided statically (narrow; necessary conditions of reading a legacy database): (1) DOM — the dual-format node fetch dispatches consistently: the legacy decoder and the legacy key-space ('n' + hash) are used exactly on the `len(key) == 32` edge, the new decoder and key-space ('s' + version,nonce) on the other; a node's storage key is its hash iff it is marked legacy; (2) FORMAT — the legacy decoder marks the node legacy, takes its hash from the storage key and its version from the body (pinned legacy layout is decided under C13); (3) PASS — the root lookup falls back to the legacy root key-space before reporting that a version does not exist; (4) ORDER — pruning across the boundary deletes the legacy versions once and then marks the legacy range as gone. Added in the build round: TABLE-legacy-root — missing legacy root entry = version does not exist, empty entry = empty tree, else the root hash; TABLE-legacy-orphans — the legacy orphan callback walked for all 9 orderings of (from, L) × (to, L): node deleted iff (from <= L and to < L) or from > L; the cached first version leaves the legacy range after the legacy delete, and getFirstNonLegacyVersion stores what it found. NOT decided: that legacy contents, hashes, orphan records and the versions meant to remain are preserved over histories (depends on what the legacy database contains). Rules added in the later seeding rounds (each listed with what it decides in this file's rule table) are described in DESIGN.md §3 \"Third and fourth seeding rounds\" and Appendix C3–C5."})
 }
 
 func checkC16(c *Ctx) {
